@@ -1,7 +1,7 @@
 """C08 — split conserves duration, sound and events.  Deciding oracle: post-contract on the real
 RelativeSequence.split."""
 from vmon import gen
-from vmon.checks.common import obs, fail
+from vmon.checks.common import obs, fail, random_prefix, apply_prefix
 
 PROP = "C08"
 MONITORS = ["split"]
@@ -58,7 +58,9 @@ def make_case(rng, i, tier):
     spec = {"notes": notes, "extra": extra, "start": rng.choice(["abs", "rel", "both"])}
     if pad:
         spec["pad"] = pad
-    return {"seq": spec, "caps": caps, "stratum": stratum, "mode": mode}
+    prefix = [op for op in random_prefix(rng, n=(1, 2)) if op["op"] not in ("pad", "scale", "quantise", "quantise_same", "cutoff", "qnl")] \
+        if (i % 5 == 4 and stratum == "B") else []
+    return {"seq": spec, "caps": caps, "stratum": stratum, "mode": mode, "prefix": prefix}
 
 
 def classify(f, case):
@@ -80,6 +82,7 @@ def classify(f, case):
 def run(case, ctx):
     from vmon.monitors import LOG
     s = gen.build_seq(case["seq"])
+    s = apply_prefix(s, case.get("prefix", []))
     before = obs(s)
     pieces = s.split(list(case["caps"]))
     fails = []
